@@ -46,7 +46,9 @@ RULE = ("a sequence = four memory objects (bytearray, array.array('H'), cdata ch
         "operations: ffi.buffer(p, n) views at random offsets read/indexed/sliced/assigned with keys that are in range, "
         "negative, out of range, beyond 2^63, None, non-int, with steps 1/2/0/-1; right-hand sides of equal and of "
         "different length, bytes/bytearray/array/memoryview/non-buffers, cdata arrays of matching and non-matching byte "
-        "size (fresh ones and slice views of the objects), pointer and primitive cdata; from_buffer of 8 ctypes over fresh objects of "
+        "size (fresh ones and slice views of the objects; also gc-wrapper arrays from ffi.gc(x, f) over ffi.new('T[]'), "
+        "slice views, from_buffer arrays, twice wrapped, fixed-size, and ffi.new_allocator arrays -- scripted in every "
+        "run for ffi.buffer(g), slice-assignment sources and memmove operands), pointer and primitive cdata; from_buffer of 8 ctypes over fresh objects of "
         "every size 0..40 incl. read-only, non-contiguous, str; fixed T[n] at n*size = len-1, len, len+1; memmove "
         "between cdata/bytearray/array/bytes/memoryview operands of the same or different objects with any overlap, "
         "n negative/huge/non-int; a case (= one operation) is non-trivial when a key is negative/out of range/huge, the "
@@ -57,7 +59,7 @@ ASSUMPTIONS = ["glibc memmove copies correctly for overlapping operands; glibc m
 CLASSES = {}
 
 SS_MIN, SS_MAX = -(1 << 63), (1 << 63) - 1
-CDEF = "struct c19s { short a; char b[3]; };"
+CDEF = "struct c19s { short a; char b[3]; }; void *malloc(size_t); void free(void *);"
 FB_TYPES = [("char[]", 1), ("unsigned char[]", 1), ("short[]", 2), ("int[]", 4), ("long[]", 8), ("struct c19s[]", 6),
             ("double[]", 8), ("int[][0]", 0)]
 
@@ -71,6 +73,25 @@ def get_ffi():
         _ffi = cffi.FFI()
         _ffi.cdef(CDEF)
     return _ffi
+
+
+_allocator = None
+
+
+def get_allocator():
+    global _allocator
+    if _allocator is None:
+        ffi = get_ffi()
+        libc = ffi.dlopen(None)
+        _allocator = (ffi.new_allocator(libc.malloc, libc.free, should_clear_after_alloc=True), libc)
+    return _allocator[0]
+
+
+def _destructor(x):
+    pass
+
+
+GC_ITEM = {"char": 1, "short": 2, "int": 4}
 
 
 def mkarg(spec):
@@ -130,6 +151,43 @@ class World:
 
     def buf(self, r, off, n):
         return self.ffi.buffer(self.ptr(r, off), n)
+
+    def gcarray(self, g):
+        """An array cdata that is a gc-wrapper object: (cdata, flat position or None, item size, its bytes).
+        v = gc / gc2 : ffi.gc(cd, f) once / twice, cd = the char[] of region 'cd'
+            gcview   : ffi.gc(x[off:off+len], f), x the cdata over region r
+            gcfb     : ffi.gc(ffi.from_buffer('T[]', bytearray), f)  (region 'ba')
+            gcfixed  : ffi.gc(ffi.new('char[k]'), f)                 (fresh, the control)
+            gcnew    : ffi.gc(ffi.new('T[]', k), f)                  (fresh)
+            alloc    : ffi.new_allocator(malloc, free)('T[]', k)     (fresh)"""
+        ffi, v = self.ffi, g["v"]
+        if v in ("gc", "gc2"):
+            cd = ffi.gc(self.cd, _destructor)
+            if v == "gc2":
+                cd = ffi.gc(cd, _destructor)
+            p, n = self.base["cd"], self.lc
+            return cd, p, 1, bytes(self.flat[p:p + n])
+        if v == "gcview":
+            cd = ffi.gc(self.alias[g["r"]][g["off"]:g["off"] + g["len"]], _destructor)
+            p = self.base[g["r"]] + g["off"]
+            return cd, p, 1, bytes(self.flat[p:p + g["len"]])
+        if v == "gcfb":
+            isz = GC_ITEM[g["T"]]
+            cd = ffi.gc(ffi.from_buffer(g["T"] + "[]", self.ba), _destructor)
+            n = self.len["ba"] // isz * isz
+            return cd, self.base["ba"], isz, bytes(self.flat[self.base["ba"]:self.base["ba"] + n])
+        raw = bytes.fromhex(g["h"])
+        isz = GC_ITEM[g["T"]]
+        assert len(raw) % isz == 0
+        if v == "gcfixed":
+            cd = ffi.gc(ffi.new("%s[%d]" % (g["T"], len(raw) // isz)), _destructor)
+        elif v == "gcnew":
+            cd = ffi.gc(ffi.new(g["T"] + "[]", len(raw) // isz), _destructor)
+        else:
+            cd = get_allocator()(g["T"] + "[]", len(raw) // isz)
+        if raw:
+            ffi.buffer(ffi.cast("char *", cd), len(raw))[:] = raw
+        return cd, None, isz, raw
 
     def _exc(self, fn):
         try:
@@ -229,6 +287,10 @@ class World:
             p = self.base[src["r"]] + src["off"]
             c = self.alias[src["r"]][src["off"]:src["off"] + src["len"]]
             return c, bytes(self.flat[p:p + src["len"]]), "carr:%d:1:at:%d" % (src["len"], p)
+        if t == "gcarr":     # a gc-wrapper array: an array cdata of the same length as what it wraps
+            cd, p, isz, raw = self.gcarray(src["g"])
+            where = "ext:%s" % hx(raw) if p is None else "at:%d" % p
+            return cd, raw, "carr:%d:%d:%s" % (len(raw) // isz, isz, where)
         if t == "cptr":      # a pointer cdata has no known size: ValueError
             return self.ptr("cd", GUARD), "ptr", "cptr"
         if t == "cint":      # any other cdata: TypeError
@@ -263,7 +325,10 @@ class World:
 
     def op_bufsize(self, op):
         how, g = op["how"], op["given"]
-        if how == "arr":
+        if how == "gcarr":
+            cd, _, _, raw = self.gcarray(op["g"])
+            dflt = len(raw)
+        elif how == "arr":
             cd, dflt = self.cd, self.lc
         elif how == "short":
             cd, dflt = self.ffi.cast("short *", self.cd), 2
@@ -377,6 +442,9 @@ class World:
         if t == "cdata":
             p = self.base[o["r"]] + o["off"]
             return self.ptr(o["r"], o["off"]), "cdata:%d:1" % p, ("ok", p)
+        if t == "gcarr":
+            cd, p, _, _ = self.gcarray(o["g"])
+            return cd, "cdata:%d:1" % p, ("ok", p)
         if t == "obj":
             r = o["r"]
             ro = r == "bs"
@@ -550,6 +618,11 @@ def gen_op(rng, w):
                 src = {"t": "carrview", "r": v[0], "off": v[1], "len": v[2]}
             else:
                 src = {"t": "carr", "T": "char", "h": rnd_bytes(rng, k).hex()}
+        elif z < 0.89:
+            T = rng.choice(["char", "char", "short", "int"])
+            kk = k if rng.random() < 0.7 else k + GC_ITEM[T]
+            src = {"t": "gcarr", "g": {"v": rng.choice(["gcnew", "gcfixed", "alloc"]), "T": T,
+                                       "h": rnd_bytes(rng, kk - kk % GC_ITEM[T]).hex()}}
         elif z < 0.92:
             src = {"t": rng.choice(["cptr", "cptr", "cint"])}
         else:
@@ -634,6 +707,49 @@ def translators(ctx):
     return [c16_exprs.translator, c19_exprs.translator]
 
 
+# ------------------------------------------------------------------ the scripted part: gc-wrapper arrays
+
+def scripted_sequences(rng):
+    """Every run, whatever the seed: array cdata obtained from ffi.gc(x, destructor) -- x = ffi.new('T[]', n), a slice
+    view, ffi.from_buffer('T[]', bytearray), a twice wrapped array, a fixed-size T[n] -- and from
+    ffi.new_allocator(malloc, free), used for ffi.buffer(g) (its length), as the right-hand side of a buffer slice
+    assignment (matching and non-matching size in bytes) and as an operand of memmove."""
+    seqs = []
+    for rep_ in range(4):
+        la, lb, lc, ld = 12, 24, 12, 8
+        ops = []
+        inmem = [{"v": "gc"}, {"v": "gc2"}, {"v": "gcfb", "T": "char"}, {"v": "gcfb", "T": "short"},
+                 {"v": "gcfb", "T": "int"}, {"v": "gcview", "r": "cd", "off": 2, "len": 7},
+                 {"v": "gcview", "r": "ba", "off": 0, "len": 12}, {"v": "gcview", "r": "bs", "off": 1, "len": 5}]
+
+        def ext(v, T, k):
+            return {"v": v, "T": T, "h": rnd_bytes(rng, k).hex()}
+        fresh = [ext("gcnew", "char", 9), ext("gcnew", "short", 8), ext("gcnew", "int", 12), ext("gcfixed", "char", 9),
+                 ext("gcfixed", "int", 8), ext("alloc", "char", 7), ext("alloc", "short", 10), ext("alloc", "int", 12),
+                 ext("gcnew", "char", 0)]
+        for g in inmem + fresh:
+            ops.append({"op": "bufsize", "how": "gcarr", "g": g, "given": None})
+        ops.append({"op": "bufsize", "how": "gcarr", "g": {"v": "gc"}, "given": 5})
+        ops.append({"op": "bufsize", "how": "gcarr", "g": {"v": "gc2"}, "given": -1})
+        # destination: the view [4, 20) of the array.array object (no source above overlaps it)
+        for g in inmem + fresh:
+            k = {"gc": 12, "gc2": 12, "gcfb": 12, "gcview": g.get("len")}.get(g["v"]) or len(g.get("h", "")) // 2
+            a = rng.randint(0, 16 - k)
+            for stop in (a + k, a + k + 1 if a + k < 16 else a + k - 1):
+                ops.append({"op": "setslice", "r": "aa", "off": 4, "n": 16, "a": ["i", a], "b": ["i", stop], "c": ["n"],
+                            "src": {"t": "gcarr", "g": g}})
+        ops.append({"op": "setslice", "r": "aa", "off": 4, "n": 16, "a": ["i", -12], "b": ["n"], "c": ["n"],
+                    "src": {"t": "gcarr", "g": {"v": "gc"}}})
+        for g in inmem:
+            ops.append({"op": "memmove", "d": {"t": "cdata", "r": "aa", "off": 6}, "s": {"t": "gcarr", "g": g},
+                        "n": ["i", 5]})
+        for g in inmem[:5]:                 # the wrapper as the destination (overlapping copy inside its own memory)
+            ops.append({"op": "memmove", "d": {"t": "gcarr", "g": g}, "s": {"t": "cdata", "r": "cd" if g["v"] != "gcfb" else "ba", "off": 3},
+                        "n": ["i", 6]})
+        seqs.append({"lens": [la, lb, lc, ld], "init": rnd_bytes(rng, la + lb + lc + ld).hex(), "ops": ops})
+    return seqs
+
+
 # ------------------------------------------------------------------ running
 
 def nontrivial_key(op, real):
@@ -678,6 +794,12 @@ def run_sequence(ctx, seq, nops, rng=None, collect=True):
             want = ("ok " if real[0] == "ok" else "err %s " % real[1]) + hx(realmem)
         ctx.case(nontrivial_key(op, real), sample=None)
         ctx.count("%s:%s" % (op["op"], "ok" if real[0] == "ok" else real[1]))
+        for fam, hit in (("bufsize", op["op"] == "bufsize" and op.get("how") == "gcarr"),
+                         ("setslice-src", op["op"] == "setslice" and op["src"]["t"] == "gcarr"),
+                         ("memmove", op["op"] == "memmove" and "gcarr" in (op["d"]["t"], op["s"]["t"]))):
+            if hit:
+                g = op.get("g") or (op.get("src") or {}).get("g") or op.get("d", {}).get("g") or op.get("s", {}).get("g")
+                ctx.count("gc-array:%s:%s:%s" % (fam, g["v"], "ok" if real[0] == "ok" else real[1]))
         if op["op"] == "setslice" and op["src"]["t"] in ("carr", "carrview", "cptr", "cint"):
             ctx.count("setslice-from-%s:%s" % (op["src"]["t"], "ok" if real[0] == "ok" else real[1]))
         robs = real if real[0] == "err" or not mutating else ("ok", None)
@@ -702,7 +824,13 @@ def run_sequence(ctx, seq, nops, rng=None, collect=True):
 def correspond(ctx, nseq=None, oracle_only=False):
     nseq = nseq if nseq is not None else ctx.n(400, 20000)
     lines, expect = [], []
-    for _ in range(nseq):
+    for seq in scripted_sequences(ctx.rng):
+        l, e = run_sequence(ctx, seq, len(seq["ops"]), None, collect=not oracle_only)
+        lines += l
+        expect += e
+        if ctx.failures:
+            break
+    for _ in range(0 if ctx.failures else nseq):
         seq = new_sequence(ctx.rng)
         l, e = run_sequence(ctx, seq, ctx.rng.randint(8, 40), ctx.rng, collect=not oracle_only)
         lines += l
